@@ -1063,6 +1063,12 @@ def random_op(rng, sub=None):
     return {'op': 'solve', 'mesh': mname, 'elem': ename, 'solver': sname, 'kwargs': kw}
 
 
+def _rng_state():
+    """the caller's global NumPy random stream (hidden global state an operation must not touch)"""
+    st = np.random.get_state()
+    return (st[0], st[1].tobytes(), st[2], st[3], st[4])
+
+
 def run_history(ops, collect=None):
     """run ops on ONE shared pool; compare every result with the same op on a brand-new pool.
     returns list of (index, kind, detail) problems and the largest float discrepancy seen"""
@@ -1070,12 +1076,15 @@ def run_history(ops, collect=None):
     problems, worst = [], 0.0
     for k, d in enumerate(ops):
         mon = Monitor()
+        rs0 = _rng_state()
         try:
             got = do_op(pool, d, mon)
             gexc = None
         except Exception as e:          # noqa: BLE001 - an exception after a history is compared with the fresh behaviour
             got, gexc = None, f'{type(e).__name__}: {e}'
         ch = mon.changed()
+        if _rng_state() != rs0:
+            ch = ['<global numpy random state>'] + ch
         if ch:
             problems.append((k, 'mutated', ch[:6]))
         fmon = Monitor()
@@ -1113,12 +1122,18 @@ def shrink(ops, k, kind):
     return cur
 
 
+def type_of_mesh(d):
+    return MESH_SPECS.get(d.get('mesh', ''), {}).get('cls', '')
+
+
 def classify(ops, kind):
     """stable key of a failing (shrunk) history: names the state that leaked"""
     last = ops[-1]
     e = last.get('elem', '')
     if kind == 'mutated':
         return f'operand-mutated:{last["op"]}:{last.get("how", last.get("solver", ""))}'
+    if kind == 'rng':
+        return f'global-state:numpy-random-stream-changed:{last["op"]}:{last.get("how", "")}:{type_of_mesh(last)}'
     if last['op'] == 'solve' and last.get('solver'):
         fac = SOLVER_SPECS[last['solver']][0]
         return f'closure:{fac}:kwargs-leak-between-calls'
@@ -1218,10 +1233,13 @@ def search(ctx):
             if mutated_at is not None and kind != 'mutated' and k >= mutated_at:
                 continue          # a consequence of the operand mutation reported for this history
             if kind == 'mutated':
-                key = classify(ops[:k + 1], kind)
+                only_rng = detail == ['<global numpy random state>']
+                key = classify(ops[:k + 1], 'rng' if only_rng else kind)
                 if key not in seen_keys:
                     seen_keys.add(key)
-                    ctx.fail(key, f'operation {ops[k]} changed arrays of its operands: {detail}', {'site': 'history', 'ops': ops[:k + 1], 'changed': detail})
+                    what = (f'operation {ops[k]} changed the global NumPy random state (the caller\'s random stream)' if only_rng
+                            else f'operation {ops[k]} changed arrays of its operands: {detail}')
+                    ctx.fail(key, what, {'site': 'history', 'ops': [ops[k]] if only_rng else ops[:k + 1], 'changed': detail})
                 continue
             small = shrink(ops, k, kind) if len(seen_keys) < 8 else ops[:k + 1]
             key = classify(small, kind)
@@ -1240,6 +1258,11 @@ def search(ctx):
     m.refined([0])
     b = np.random.get_state()[1][:4].tolist()
     ctx.extra['global_rng_state_changed_by_MeshTet1_adaptive_refinement'] = (a != b)
+    if a != b:
+        ctx.fail('global-state:numpy-random-stream-changed:transform:adaptive:MeshTet',
+                 'MeshTet.refined(marked) (adaptive refinement) re-seeds the global NumPy random state: np.random draws of the caller '
+                 'after the call no longer depend on the caller\'s seed', {'site': 'history', 'ops': [{'op': 'transform', 'mesh': 'tet', 'how': 'adaptive'}],
+                                                                           'changed': ['<global numpy random state>']})
     return wit
 
 
@@ -1283,6 +1306,7 @@ def replay(ctx, data):
         for k, kind, detail in problems:
             if k == len(inp['ops']) - 1:
                 ctx.fail(data['key'], data['what'], inp)
+                break
     elif site in ('linepp', 'quadp'):
         cls = skfem.ElementLinePp if site == 'linepp' else skfem.ElementQuadP
         X1, X2 = unjson_arr(inp['X1']), unjson_arr(inp['X2'])
